@@ -470,9 +470,11 @@ def rule_5_5_2_1 (S : Schema) (D : Doc) : Bool :=
 def rule_5_5_2_2 (_ : Schema) (D : Doc) : Bool :=
   (frags D).all fun f => !(reachable D f.sel).contains f.name
 
-/-- spec `GetPossibleTypes(a) ∩ GetPossibleTypes(b) ≠ ∅` -/
+/-- spec `GetPossibleTypes(a) ∩ GetPossibleTypes(b) ≠ ∅`; a type always overlaps itself (the reading of the
+    reference implementation `doTypesOverlap`: an interface without any implementing object type, which the
+    specification does not forbid, can still be narrowed to itself) -/
 def canApply (S : Schema) (scope cond : Name) : Bool :=
-  !(S.isComposite scope && S.isComposite cond) ||
+  !(S.isComposite scope && S.isComposite cond) || scope == cond ||
   (S.possibleTypes scope).any fun t => (S.possibleTypes cond).contains t
 
 def rule_5_5_2_3 (S : Schema) (D : Doc) : Bool :=
